@@ -39,17 +39,17 @@ def int_subset : Nat := 27
 def markup_decl : Nat := 28
 def sd_decl : Nat := 29
 def element : Nat := 30
-def stag : Nat := 31
-def attribute_ : Nat := 32
-def etag : Nat := 33
-def content : Nat := 34
-def empty_entity_tag : Nat := 35
-def element_decl : Nat := 36
-def content_spec : Nat := 37
-def children : Nat := 38
-def cp : Nat := 39
-def choice : Nat := 40
-def seq : Nat := 41
+def element_body : Nat := 31
+def stag : Nat := 32
+def attribute_ : Nat := 33
+def etag : Nat := 34
+def content : Nat := 35
+def empty_entity_tag : Nat := 36
+def element_decl : Nat := 37
+def content_spec : Nat := 38
+def children : Nat := 39
+def cp : Nat := 40
+def group : Nat := 41
 def mixed : Nat := 42
 def attlist_decl : Nat := 43
 def att_def : Nat := 44
@@ -76,7 +76,7 @@ def public_id : Nat := 64
 def ns_att_name : Nat := 65
 end N
 
-def ntNames : List String := ["ncname", "qname", "prefixed_name", "multichar0", "multinamestartchar0", "multinamechar0", "nmtoken", "multipubidchar0", "document", "name", "entity_value", "att_value", "system_literal", "pubid_literal", "char_data", "comment", "pi", "pi_target", "cdsect", "prolog", "xml_decl", "version_info", "eq", "version_num", "misc", "doctype_decl", "decl_sep", "int_subset", "markup_decl", "sd_decl", "element", "stag", "attribute", "etag", "content", "empty_entity_tag", "element_decl", "content_spec", "children", "cp", "choice", "seq", "mixed", "attlist_decl", "att_def", "att_type", "enumerated_type", "notation_type", "enumeration", "default_decl", "char_ref", "reference", "entity_ref", "pe_reference", "entity_decl", "ge_decl", "pe_decl", "entity_def", "pe_def", "external_id", "ndata_decl", "encoding_decl", "enc_name", "notation_decl", "public_id", "ns_att_name"]
+def ntNames : List String := ["ncname", "qname", "prefixed_name", "multichar0", "multinamestartchar0", "multinamechar0", "nmtoken", "multipubidchar0", "document", "name", "entity_value", "att_value", "system_literal", "pubid_literal", "char_data", "comment", "pi", "pi_target", "cdsect", "prolog", "xml_decl", "version_info", "eq", "version_num", "misc", "doctype_decl", "decl_sep", "int_subset", "markup_decl", "sd_decl", "element", "element_body", "stag", "attribute", "etag", "content", "empty_entity_tag", "element_decl", "content_spec", "children", "cp", "group", "mixed", "attlist_decl", "att_def", "att_type", "enumerated_type", "notation_type", "enumeration", "default_decl", "char_ref", "reference", "entity_ref", "pe_reference", "entity_decl", "ge_decl", "pe_decl", "entity_def", "pe_def", "external_id", "ndata_decl", "encoding_decl", "enc_name", "notation_decl", "public_id", "ns_att_name"]
 
 namespace Prod
 def ncname : G :=
@@ -140,6 +140,8 @@ def markup_decl : G :=
 def sd_decl : G :=
   G.seq [G.seq [G.cls1 P.isSpace, G.tag [Char.ofNat 115,Char.ofNat 116,Char.ofNat 97,Char.ofNat 110,Char.ofNat 100,Char.ofNat 97,Char.ofNat 108,Char.ofNat 111,Char.ofNat 110,Char.ofNat 101], G.nt N.eq], G.alt [G.seq [G.tag [Char.ofNat 39], G.tag [Char.ofNat 121,Char.ofNat 101,Char.ofNat 115], G.tag [Char.ofNat 39]], G.seq [G.tag [Char.ofNat 34], G.tag [Char.ofNat 121,Char.ofNat 101,Char.ofNat 115], G.tag [Char.ofNat 34]], G.seq [G.tag [Char.ofNat 39], G.tag [Char.ofNat 110,Char.ofNat 111], G.tag [Char.ofNat 39]], G.seq [G.tag [Char.ofNat 34], G.tag [Char.ofNat 110,Char.ofNat 111], G.tag [Char.ofNat 34]]]]
 def element : G :=
+  G.nt N.element_body
+def element_body : G :=
   G.alt [G.nt N.empty_entity_tag, G.verify (G.seq [G.nt N.stag, G.nt N.content, G.nt N.etag]) P.tagNamesMatch]
 def stag : G :=
   G.seq [G.tag [Char.ofNat 60], G.seq [G.nt N.qname, G.many0 (G.seq [G.cls1 P.isSpace, G.nt N.attribute_])], G.seq [G.cls0 P.isSpace, G.tag [Char.ofNat 62]]]
@@ -156,13 +158,11 @@ def element_decl : G :=
 def content_spec : G :=
   G.alt [G.tag [Char.ofNat 69,Char.ofNat 77,Char.ofNat 80,Char.ofNat 84,Char.ofNat 89], G.tag [Char.ofNat 65,Char.ofNat 78,Char.ofNat 89], G.nt N.mixed, G.nt N.children]
 def children : G :=
-  G.alt [G.seq [G.nt N.seq, G.alt [G.alt [G.tag [Char.ofNat 63], G.tag [Char.ofNat 42], G.tag [Char.ofNat 43]], G.seq []]], G.seq [G.nt N.choice, G.alt [G.alt [G.tag [Char.ofNat 63], G.tag [Char.ofNat 42], G.tag [Char.ofNat 43]], G.seq []]]]
+  G.seq [G.nt N.group, G.alt [G.alt [G.tag [Char.ofNat 63], G.tag [Char.ofNat 42], G.tag [Char.ofNat 43]], G.seq []]]
 def cp : G :=
-  G.alt [G.seq [G.nt N.seq, G.alt [G.alt [G.tag [Char.ofNat 63], G.tag [Char.ofNat 42], G.tag [Char.ofNat 43]], G.seq []]], G.seq [G.nt N.choice, G.alt [G.alt [G.tag [Char.ofNat 63], G.tag [Char.ofNat 42], G.tag [Char.ofNat 43]], G.seq []]], G.seq [G.nt N.qname, G.alt [G.alt [G.tag [Char.ofNat 63], G.tag [Char.ofNat 42], G.tag [Char.ofNat 43]], G.seq []]]]
-def choice : G :=
-  G.seq [G.seq [G.tag [Char.ofNat 40], G.cls0 P.isSpace], G.seq [G.nt N.cp, G.seq [G.seq [G.seq [G.cls0 P.isSpace, G.tag [Char.ofNat 124], G.cls0 P.isSpace], G.nt N.cp], G.many0 (G.seq [G.seq [G.cls0 P.isSpace, G.tag [Char.ofNat 124], G.cls0 P.isSpace], G.nt N.cp])]], G.seq [G.cls0 P.isSpace, G.tag [Char.ofNat 41]]]
-def seq : G :=
-  G.seq [G.seq [G.tag [Char.ofNat 40], G.cls0 P.isSpace], G.seq [G.nt N.cp, G.many0 (G.seq [G.seq [G.cls0 P.isSpace, G.tag [Char.ofNat 44], G.cls0 P.isSpace], G.nt N.cp])], G.seq [G.cls0 P.isSpace, G.tag [Char.ofNat 41]]]
+  G.alt [G.nt N.children, G.seq [G.nt N.qname, G.alt [G.alt [G.tag [Char.ofNat 63], G.tag [Char.ofNat 42], G.tag [Char.ofNat 43]], G.seq []]]]
+def group : G :=
+  G.seq [G.seq [G.tag [Char.ofNat 40], G.cls0 P.isSpace], G.seq [G.nt N.cp, G.alt [G.seq [G.seq [G.seq [G.cls0 P.isSpace, G.tag [Char.ofNat 124], G.cls0 P.isSpace], G.nt N.cp], G.many0 (G.seq [G.seq [G.cls0 P.isSpace, G.tag [Char.ofNat 124], G.cls0 P.isSpace], G.nt N.cp])], G.many0 (G.seq [G.seq [G.cls0 P.isSpace, G.tag [Char.ofNat 44], G.cls0 P.isSpace], G.nt N.cp])]], G.seq [G.cls0 P.isSpace, G.tag [Char.ofNat 41]]]
 def mixed : G :=
   G.alt [G.seq [G.seq [G.tag [Char.ofNat 40], G.cls0 P.isSpace, G.tag [Char.ofNat 35,Char.ofNat 80,Char.ofNat 67,Char.ofNat 68,Char.ofNat 65,Char.ofNat 84,Char.ofNat 65]], G.many0 (G.seq [G.seq [G.cls0 P.isSpace, G.tag [Char.ofNat 124], G.cls0 P.isSpace], G.nt N.qname]), G.seq [G.cls0 P.isSpace, G.tag [Char.ofNat 41,Char.ofNat 42]]], G.seq [G.tag [Char.ofNat 40], G.cls0 P.isSpace, G.tag [Char.ofNat 35,Char.ofNat 80,Char.ofNat 67,Char.ofNat 68,Char.ofNat 65,Char.ofNat 84,Char.ofNat 65], G.cls0 P.isSpace, G.tag [Char.ofNat 41]]]
 def attlist_decl : G :=
@@ -245,17 +245,17 @@ def env : Env
   | 28 => Prod.markup_decl
   | 29 => Prod.sd_decl
   | 30 => Prod.element
-  | 31 => Prod.stag
-  | 32 => Prod.attribute_
-  | 33 => Prod.etag
-  | 34 => Prod.content
-  | 35 => Prod.empty_entity_tag
-  | 36 => Prod.element_decl
-  | 37 => Prod.content_spec
-  | 38 => Prod.children
-  | 39 => Prod.cp
-  | 40 => Prod.choice
-  | 41 => Prod.seq
+  | 31 => Prod.element_body
+  | 32 => Prod.stag
+  | 33 => Prod.attribute_
+  | 34 => Prod.etag
+  | 35 => Prod.content
+  | 36 => Prod.empty_entity_tag
+  | 37 => Prod.element_decl
+  | 38 => Prod.content_spec
+  | 39 => Prod.children
+  | 40 => Prod.cp
+  | 41 => Prod.group
   | 42 => Prod.mixed
   | 43 => Prod.attlist_decl
   | 44 => Prod.att_def
@@ -313,6 +313,7 @@ theorem env_int_subset : env N.int_subset = Prod.int_subset := rfl
 theorem env_markup_decl : env N.markup_decl = Prod.markup_decl := rfl
 theorem env_sd_decl : env N.sd_decl = Prod.sd_decl := rfl
 theorem env_element : env N.element = Prod.element := rfl
+theorem env_element_body : env N.element_body = Prod.element_body := rfl
 theorem env_stag : env N.stag = Prod.stag := rfl
 theorem env_attribute : env N.attribute_ = Prod.attribute_ := rfl
 theorem env_etag : env N.etag = Prod.etag := rfl
@@ -322,8 +323,7 @@ theorem env_element_decl : env N.element_decl = Prod.element_decl := rfl
 theorem env_content_spec : env N.content_spec = Prod.content_spec := rfl
 theorem env_children : env N.children = Prod.children := rfl
 theorem env_cp : env N.cp = Prod.cp := rfl
-theorem env_choice : env N.choice = Prod.choice := rfl
-theorem env_seq : env N.seq = Prod.seq := rfl
+theorem env_group : env N.group = Prod.group := rfl
 theorem env_mixed : env N.mixed = Prod.mixed := rfl
 theorem env_attlist_decl : env N.attlist_decl = Prod.attlist_decl := rfl
 theorem env_att_def : env N.att_def = Prod.att_def := rfl
@@ -349,8 +349,11 @@ theorem env_notation_decl : env N.notation_decl = Prod.notation_decl := rfl
 theorem env_public_id : env N.public_id = Prod.public_id := rfl
 theorem env_ns_att_name : env N.ns_att_name = Prod.ns_att_name := rfl
 
+/-- `element` refuses nesting deeper than this (thread-local depth counter in the source) -/
+def maxDepth_element : Nat := 128
+
 /-- semantic actions (closures of `map`) seen by the translator: (production, sha1 of the text).
     The model's `abs` functions are hand-written counterparts; the differential tie covers them. -/
-def actionFingerprints : List (String × String) := [("qname", "255d22b30239"), ("qname", "255d22b30239"), ("prefixed_name", "1b78533b5138"), ("document", "84460134d61e"), ("entity_value", "9b6e3d476697"), ("entity_value", "c43950530afe"), ("entity_value", "7c06e316074f"), ("entity_value", "9b6e3d476697"), ("entity_value", "c43950530afe"), ("entity_value", "7c06e316074f"), ("att_value", "6f93d1d1c682"), ("att_value", "6f93d1d1c682"), ("att_value", "6f93d1d1c682"), ("att_value", "6f93d1d1c682"), ("comment", "efed5b57a32d"), ("pi", "3db44056236f"), ("cdsect", "4e57dfb88628"), ("prolog", "9c2f5d02acff"), ("xml_decl", "a5ccd258860a"), ("misc", "16d07615705c"), ("misc", "16d07615705c"), ("misc", "16d07615705c"), ("doctype_decl", "cf4ebfbd648a"), ("decl_sep", "7219529fb20a"), ("decl_sep", "576148231fb6"), ("int_subset", "7219529fb20a"), ("markup_decl", "c4b9b8f701a7"), ("markup_decl", "5fb0f09f8d5c"), ("markup_decl", "e7deee2cc167"), ("markup_decl", "e7deee2cc167"), ("markup_decl", "e7deee2cc167"), ("markup_decl", "e7deee2cc167"), ("sd_decl", "f5c3e13f0d9b"), ("element", "55ef48a6e423"), ("stag", "49969d7f9c42"), ("attribute", "60a361a148e3"), ("attribute", "34b44e70bf7a"), ("content", "724022a66c14"), ("content", "7c664111a1b6"), ("content", "7c664111a1b6"), ("content", "7c664111a1b6"), ("content", "7c664111a1b6"), ("content", "7c664111a1b6"), ("empty_entity_tag", "49969d7f9c42"), ("element_decl", "05c2259f0b6d"), ("content_spec", "74a878543995"), ("content_spec", "7d5a68f559b2"), ("content_spec", "06449b27557c"), ("content_spec", "4cbaff72ef3c"), ("children", "47c759b8c7eb"), ("children", "c06e17d59a5c"), ("cp", "47c759b8c7eb"), ("cp", "c06e17d59a5c"), ("cp", "fed998edeb2c"), ("choice", "a20747d89d6e"), ("seq", "a20747d89d6e"), ("mixed", "00b2aad45d07"), ("mixed", "c31eb39b2cc6"), ("attlist_decl", "e89ca67d4b1d"), ("att_def", "d2be2e8645c3"), ("att_def", "5f893f03fa91"), ("att_def", "d0d84792d7ec"), ("att_type", "5f9d9bdef57f"), ("att_type", "7ab2d3f1bd91"), ("att_type", "4657757c5ee5"), ("att_type", "d3075210a205"), ("att_type", "29d201f272c6"), ("att_type", "efc5ce234fa7"), ("att_type", "5a1fa8748789"), ("att_type", "df25cff1042c"), ("enumerated_type", "070769f9b122"), ("enumerated_type", "3ec64a285407"), ("notation_type", "a20747d89d6e"), ("enumeration", "a20747d89d6e"), ("default_decl", "d1aee26c7117"), ("default_decl", "2e1e0d887d0b"), ("default_decl", "9a1862108875"), ("char_ref", "76f168b85690"), ("char_ref", "91b3947c47be"), ("entity_ref", "c8348a104590"), ("entity_decl", "89b44a5c6ec8"), ("entity_decl", "89b44a5c6ec8"), ("ge_decl", "669d45e4f868"), ("pe_decl", "3253fb3764c4"), ("entity_def", "c45cfa7c406f"), ("entity_def", "c45cfa7c406f"), ("pe_def", "58efc2ca01f0"), ("pe_def", "58efc2ca01f0"), ("external_id", "67f9fb473b7c"), ("external_id", "67f9fb473b7c"), ("notation_decl", "143b61bd5b5a"), ("notation_decl", "cedb5c32d67c"), ("notation_decl", "cedb5c32d67c"), ("ns_att_name", "34b44e70bf7a"), ("ns_att_name", "4ada3f8d3293")]
+def actionFingerprints : List (String × String) := [("qname", "255d22b30239"), ("qname", "255d22b30239"), ("prefixed_name", "1b78533b5138"), ("document", "84460134d61e"), ("entity_value", "9b6e3d476697"), ("entity_value", "c43950530afe"), ("entity_value", "7c06e316074f"), ("entity_value", "9b6e3d476697"), ("entity_value", "c43950530afe"), ("entity_value", "7c06e316074f"), ("att_value", "6f93d1d1c682"), ("att_value", "6f93d1d1c682"), ("att_value", "6f93d1d1c682"), ("att_value", "6f93d1d1c682"), ("comment", "efed5b57a32d"), ("pi", "3db44056236f"), ("cdsect", "4e57dfb88628"), ("prolog", "9c2f5d02acff"), ("xml_decl", "a5ccd258860a"), ("misc", "16d07615705c"), ("misc", "16d07615705c"), ("misc", "16d07615705c"), ("doctype_decl", "cf4ebfbd648a"), ("decl_sep", "7219529fb20a"), ("decl_sep", "576148231fb6"), ("int_subset", "7219529fb20a"), ("markup_decl", "c4b9b8f701a7"), ("markup_decl", "5fb0f09f8d5c"), ("markup_decl", "e7deee2cc167"), ("markup_decl", "e7deee2cc167"), ("markup_decl", "e7deee2cc167"), ("markup_decl", "e7deee2cc167"), ("sd_decl", "f5c3e13f0d9b"), ("element_body", "55ef48a6e423"), ("stag", "49969d7f9c42"), ("attribute", "60a361a148e3"), ("attribute", "34b44e70bf7a"), ("content", "724022a66c14"), ("content", "7c664111a1b6"), ("content", "7c664111a1b6"), ("content", "7c664111a1b6"), ("content", "7c664111a1b6"), ("content", "7c664111a1b6"), ("empty_entity_tag", "49969d7f9c42"), ("element_decl", "05c2259f0b6d"), ("content_spec", "74a878543995"), ("content_spec", "7d5a68f559b2"), ("content_spec", "06449b27557c"), ("content_spec", "4cbaff72ef3c"), ("children", "295640c04c50"), ("cp", "fed998edeb2c"), ("group", "2e0299bce15d"), ("group", "6f25a07803de"), ("group", "159a155daec3"), ("mixed", "00b2aad45d07"), ("mixed", "c31eb39b2cc6"), ("attlist_decl", "e89ca67d4b1d"), ("att_def", "d2be2e8645c3"), ("att_def", "5f893f03fa91"), ("att_def", "d0d84792d7ec"), ("att_type", "5f9d9bdef57f"), ("att_type", "7ab2d3f1bd91"), ("att_type", "4657757c5ee5"), ("att_type", "d3075210a205"), ("att_type", "29d201f272c6"), ("att_type", "efc5ce234fa7"), ("att_type", "5a1fa8748789"), ("att_type", "df25cff1042c"), ("enumerated_type", "070769f9b122"), ("enumerated_type", "3ec64a285407"), ("notation_type", "a20747d89d6e"), ("enumeration", "a20747d89d6e"), ("default_decl", "d1aee26c7117"), ("default_decl", "2e1e0d887d0b"), ("default_decl", "9a1862108875"), ("char_ref", "76f168b85690"), ("char_ref", "91b3947c47be"), ("entity_ref", "c8348a104590"), ("entity_decl", "89b44a5c6ec8"), ("entity_decl", "89b44a5c6ec8"), ("ge_decl", "669d45e4f868"), ("pe_decl", "3253fb3764c4"), ("entity_def", "c45cfa7c406f"), ("entity_def", "c45cfa7c406f"), ("pe_def", "58efc2ca01f0"), ("pe_def", "58efc2ca01f0"), ("external_id", "67f9fb473b7c"), ("external_id", "67f9fb473b7c"), ("notation_decl", "143b61bd5b5a"), ("notation_decl", "cedb5c32d67c"), ("notation_decl", "cedb5c32d67c"), ("ns_att_name", "34b44e70bf7a"), ("ns_att_name", "4ada3f8d3293")]
 
 end XmlRs.Gen.Xml
